@@ -201,10 +201,13 @@ func genCase(r *lib.Rng, id int64, tier string) Case {
 		npreLen = r.Range(1, 10)
 	default:
 		npreLen = r.Range(2*c.Nsamp, 6*c.Nsamp)
-		c.PreMode = r.Intn(3)
-		if r.Chance(1, 3) {
+		c.PreMode = r.Intn(4)
+		if r.Chance(1, 3) || c.PreMode == 3 {
 			c.PreNpre = r.Pick([]int{4, 6, 9})
 			c.PreNsamp = c.PreNpre + r.Pick([]int{4, 7, 12})
+			if c.PreNpre == c.Npre && c.PreNsamp == c.Nsamp {
+				c.PreNsamp++
+			}
 		}
 	}
 	n := r.Range(4*c.Nsamp, 12*c.Nsamp)
@@ -362,6 +365,10 @@ func corpus() []Case {
 	// reconfiguration with leftover state: same ramp shape right after the retained stream's look-back limit
 	long := append(flatRamp(120, 40, 150, 5, 1000), flatRamp(90, 0, 0, 0, 1750)...)
 	cs = append(cs, Case{Npre: 6, Nsamp: 16, Thr: 100, Nmono: 1, Mode: 0, ZT: true, PreMode: 1, Pre: long[:120], PreCut: []int{50, 70}, Data: long[120:], Ops: []int{45, 45}, Kind: "corpus"})
+	// edge-multi stays on across ConfigurePulseLengths: the pulse found last with the old lengths must be forgotten
+	cs = append(cs, Case{Npre: 6, Nsamp: 16, Thr: 100, Nmono: 1, Mode: 0, ZT: true, PreMode: 3, PreNpre: 4, PreNsamp: 8, Pre: long[:120], PreCut: []int{50, 70}, Data: long[120:], Ops: []int{45, 45}, Kind: "corpus"})
+	pl := append(flatRamp(60, 30, 300, 3, 1000), flatRamp(60, 50, 300, 3, 1900)...)
+	cs = append(cs, Case{Npre: 4, Nsamp: 10, Thr: 100, Nmono: 1, Mode: 1, PreMode: 3, PreNpre: 6, PreNsamp: 13, Pre: pl[:60], PreCut: []int{60}, Data: append(pl[60:], flatRamp(40, 10, 300, 3, 2800)...), Ops: []int{20, 20, 60}, Kind: "corpus"})
 	// the repository's own examples, scaled to legal lengths: two pulses 3 apart, all three modes, cut between them
 	p := []int{0, 0, 0, 0, 0, 0, 0, 0, 10, 20, 0, 10, 20, 0, 0, 0, 0, 0, 0, 0, 0, 0, 0, 0, 0, 0, 0, 0, 0, 0, 0, 0}
 	for mode := 0; mode < 3; mode++ {
